@@ -6,9 +6,11 @@
 //
 // Case line (blank separated, strings lower-case hex, "-" = empty):
 //
-//	wire <fmt> <ssl> <keepalive> <instances> <tgt> <preload> <resp> <pools> <late> <pause> <ncfg> {k v}*ncfg <nitems> {item}*nitems
-//	  fmt  = uri | uripost | jsonline | raw         tgt = ip (127.0.0.1:PORT) | name (localhost:PORT)
-//	  preload = provider option `preload` 0|1        resp = <status>:<bytes> what the target answers to every request
+//	wire <fmt> <ssl> <keepalive> <instances> <tgt> <preload> <resp> <pools> <late> <pause> <passes> <ncfg> {k v}*ncfg <nitems> {item}*nitems
+//	  fmt  = uri | uripost | jsonline | jsonarr (the jsonline entries as ONE JSON array) | raw         tgt = ip (127.0.0.1:PORT) | name (localhost:PORT)
+//	  preload = provider option `preload` 0|1        resp = <status>:<bytes>:<delay-ms> what the target answers to every request, and how slowly
+//	  passes  = how many times the file is delivered (limit = entries*passes): with preload or an array file the SAME decoded
+//	            entries are handed out again, possibly to several instances at once
 //	  pools = number of pools in the one engine run, each with its own target server on another port of the same
 //	          host (127.0.0.1 / localhost) and the same ammo;  late = 1: the targets are down while the configuration
 //	          is decoded (the gun factories' PreResolveTargetAddr fails, the DNS-caching dialer stays on) and are
@@ -16,8 +18,7 @@
 //	  pause = milliseconds between the requests (rps schedule const 1000/pause per second instead of once(n)); cases with a
 //	          pause run concurrently with the others (own servers and recorder, no decoy hosts)
 //
-//	tr <tls-handshake-ms> <disable-keep-alives> <disable-compression> <max-idle> <max-idle-per-host> <idle-ms> <resp-header-ms> <expect-continue-ms>
-//	  -> the same eight fields read back from the *http.Transport that phttp.NewTransport builds from that TransportConfig
+//	tr <salt>   -> one token <Struct>.<Field>:<configured>:<built> per field of phttp.TransportConfig and phttp.DialerConfig (see runTransport)
 //	  item = H k v                                   an in-file "[k: v]" line (uri, uripost only)
 //	       | E method uri scheme urlhost tag body nh {k v}*nh
 //	         scheme = - (request-URI only) | h | s (absolute URL http://urlhost<uri> / https://…)
@@ -44,6 +45,7 @@ import (
 	"net"
 	"net/http"
 	"net/http/httptest"
+	"reflect"
 	"sort"
 	"strconv"
 	"strings"
@@ -90,6 +92,8 @@ type wcase struct {
 	pools   int
 	late    bool
 	pause   int
+	passes  int
+	rdelay  int
 	preload bool
 	rstatus int
 	rsize   int
@@ -133,12 +137,26 @@ func parseCase(line string) (*wcase, error) {
 		c.inst = num()
 		c.tgt = next()
 		c.preload = next() == "1"
-		rs, rz, _ := strings.Cut(next(), ":")
-		c.rstatus, _ = strconv.Atoi(rs)
-		c.rsize, _ = strconv.Atoi(rz)
+		rf := strings.Split(next(), ":")
+		c.rstatus, _ = strconv.Atoi(rf[0])
+		if len(rf) > 1 {
+			c.rsize, _ = strconv.Atoi(rf[1])
+		}
+		if len(rf) > 2 {
+			c.rdelay, _ = strconv.Atoi(rf[2])
+		}
 		c.pools = num()
 		c.late = next() == "1"
 		c.pause = num()
+		c.passes = num()
+		if c.passes < 1 {
+			c.passes = 1
+		}
+		if c.pause > 0 {
+			// paused cases run concurrently with the others: they must not release and re-take ports (a port released
+			// by a late-start case could be handed to another case's server in between)
+			c.late = false
+		}
 		for n := num(); n > 0; n-- {
 			k := str()
 			v := str()
@@ -187,6 +205,12 @@ func (it *item) url(decoy string) string {
 }
 
 func renderFile(c *wcase, decoy string) []byte {
+	if c.format == "jsonarr" {
+		c2 := *c
+		c2.format = "jsonline"
+		lines := strings.Split(strings.TrimRight(string(renderFile(&c2, decoy)), "\n"), "\n")
+		return []byte("[" + strings.Join(lines, ",\n") + "]\n")
+	}
 	var b strings.Builder
 	for i := range c.items {
 		it := &c.items[i]
@@ -260,6 +284,7 @@ type record struct {
 type recorder struct {
 	status int
 	size   int
+	delay  int
 	mu     sync.Mutex
 	recs   []record
 	conns  map[string]bool // connections seen by the target (remote addresses)
@@ -291,6 +316,9 @@ func handler(srv string, own *recorder) http.Handler {
 		status, size := 200, 2
 		if rec != nil && strings.HasPrefix(srv, "T") {
 			status, size = rec.status, rec.size
+			if rec.delay > 0 {
+				time.Sleep(time.Duration(rec.delay) * time.Millisecond)
+			}
 		}
 		w.Header().Set("Content-Type", "text/plain")
 		if status == 301 {
@@ -350,24 +378,81 @@ func setup() {
 	decoySrv = httptest.NewServer(handler("D", nil))
 }
 
-// runCase: a late-start case whose reserved port was taken by another process in between is repeated on fresh ports.
+// runTransport: fill EVERY field of phttp.TransportConfig and phttp.DialerConfig (found by reflection, so a new field is
+// covered and a dropped one is noticed) with a distinct value derived from the salt, build the transport / dialer with the
+// real constructors and read the same-named fields back.  One token per config field:  <Struct>.<Field>:<configured>:<built>
+// ("?" when the built object has no field of that name, "-" for fields that deliberately have no counterpart).
 func runTransport(line string) string {
 	f := strings.Split(line, " ")
-	if len(f) != 9 {
+	if len(f) != 2 {
 		return "badcase"
 	}
-	n := func(i int) int { v, _ := strconv.Atoi(f[i]); return v }
-	ms := func(i int) time.Duration { return time.Duration(n(i)) * time.Millisecond }
-	conf := phttp.TransportConfig{
-		TLSHandshakeTimeout: ms(1), DisableKeepAlives: f[2] == "1", DisableCompression: f[3] == "1",
-		MaxIdleConns: n(4), MaxIdleConnsPerHost: n(5), IdleConnTimeout: ms(6),
-		ResponseHeaderTimeout: ms(7), ExpectContinueTimeout: ms(8),
+	salt, _ := strconv.Atoi(f[1])
+	fill := func(v reflect.Value) map[string]string {
+		want := map[string]string{}
+		for i := 0; i < v.NumField(); i++ {
+			fld := v.Field(i)
+			name := v.Type().Field(i).Name
+			switch fld.Interface().(type) {
+			case time.Duration:
+				d := time.Duration(salt*7+i*13+1) * time.Millisecond
+				fld.Set(reflect.ValueOf(d))
+				want[name] = fmt.Sprint(d.Milliseconds())
+			case bool:
+				bv := (salt>>uint(i))&1 == 1
+				fld.SetBool(bv)
+				want[name] = vh.B(bv)
+			case int:
+				fld.SetInt(int64(salt + i + 2))
+				want[name] = fmt.Sprint(salt + i + 2)
+			default:
+				want[name] = "unsupported-type"
+			}
+		}
+		return want
 	}
-	tr := phttp.NewTransport(conf, (&net.Dialer{}).DialContext, "127.0.0.1:80")
-	return fmt.Sprintf("tr %d %s %s %d %d %d %d %d", tr.TLSHandshakeTimeout.Milliseconds(), vh.B(tr.DisableKeepAlives), vh.B(tr.DisableCompression),
-		tr.MaxIdleConns, tr.MaxIdleConnsPerHost, tr.IdleConnTimeout.Milliseconds(), tr.ResponseHeaderTimeout.Milliseconds(), tr.ExpectContinueTimeout.Milliseconds())
+	read := func(built reflect.Value, name string) string {
+		fv := built.FieldByName(name)
+		if !fv.IsValid() {
+			return "?"
+		}
+		switch x := fv.Interface().(type) {
+		case time.Duration:
+			return fmt.Sprint(x.Milliseconds())
+		case bool:
+			return vh.B(x)
+		case int:
+			return fmt.Sprint(x)
+		}
+		return "?"
+	}
+	var out []string
+	tc := phttp.TransportConfig{}
+	wantT := fill(reflect.ValueOf(&tc).Elem())
+	tr := phttp.NewTransport(tc, (&net.Dialer{}).DialContext, "127.0.0.1:80")
+	for i := 0; i < reflect.TypeOf(tc).NumField(); i++ {
+		name := reflect.TypeOf(tc).Field(i).Name
+		out = append(out, fmt.Sprintf("TransportConfig.%s:%s:%s", name, wantT[name], read(reflect.ValueOf(tr).Elem(), name)))
+	}
+	dc := phttp.DialerConfig{}
+	wantD := fill(reflect.ValueOf(&dc).Elem())
+	dc.DNSCache = false // with the cache on NewDialer wraps the net.Dialer; DNSCache itself is not a net.Dialer field
+	if d, ok := phttp.NewDialer(dc).(*net.Dialer); ok {
+		for i := 0; i < reflect.TypeOf(dc).NumField(); i++ {
+			name := reflect.TypeOf(dc).Field(i).Name
+			if name == "DNSCache" {
+				out = append(out, "DialerConfig.DNSCache:-:-")
+				continue
+			}
+			out = append(out, fmt.Sprintf("DialerConfig.%s:%s:%s", name, wantD[name], read(reflect.ValueOf(d).Elem(), name)))
+		}
+	} else {
+		out = append(out, "DialerConfig.*:net.Dialer:other")
+	}
+	return strings.Join(out, " ")
 }
 
+// runCase: a late-start case whose reserved port was taken by another process in between is repeated on fresh ports.
 func runCase(line string) string {
 	if strings.HasPrefix(line, "tr ") {
 		return runTransport(line)
@@ -384,7 +469,7 @@ func runCaseOnce(line string) string {
 	if err != nil {
 		return "badcase"
 	}
-	rec := &recorder{conns: map[string]bool{}, status: c.rstatus, size: c.rsize}
+	rec := &recorder{conns: map[string]bool{}, status: c.rstatus, size: c.rsize, delay: c.rdelay}
 	if c.pause == 0 {
 		curMu.Lock()
 		cur = rec
@@ -405,7 +490,8 @@ func runCaseOnce(line string) string {
 			nEntries++
 		}
 	}
-	typ := map[string]string{"uri": "uri", "uripost": "uripost", "jsonline": "http/json", "raw": "raw"}[c.format]
+	typ := map[string]string{"uri": "uri", "uripost": "uripost", "jsonline": "http/json", "jsonarr": "http/json", "raw": "raw"}[c.format]
+	total := nEntries * c.passes
 	var hdrs []any
 	for _, h := range c.cfg {
 		hdrs = append(hdrs, fmt.Sprintf("[%s: %s]", h.k, h.v))
@@ -465,10 +551,10 @@ func runCaseOnce(line string) string {
 			start(k)
 		}
 	}
-	rps := []any{map[string]any{"type": "once", "times": nEntries}}
+	rps := []any{map[string]any{"type": "once", "times": total}}
 	if c.pause > 0 {
 		rps = []any{map[string]any{"type": "const", "ops": 1000.0 / float64(c.pause),
-			"duration": fmt.Sprintf("%dms", (nEntries+1)*c.pause)}}
+			"duration": fmt.Sprintf("%dms", (total+1)*c.pause)}}
 	}
 	var pools []any
 	for k := 0; k < c.pools; k++ {
@@ -476,7 +562,7 @@ func runCaseOnce(line string) string {
 		if c.tgt == "name" {
 			target = "localhost:" + ports[k]
 		}
-		ammo := map[string]any{"type": typ, "file": path, "limit": nEntries, "preload": c.preload}
+		ammo := map[string]any{"type": typ, "file": path, "limit": total, "preload": c.preload}
 		if len(hdrs) > 0 {
 			ammo["headers"] = hdrs
 		}
@@ -514,7 +600,7 @@ func runCaseOnce(line string) string {
 		conf.Engine.Pools[k].Aggregator = &aggr{}
 	}
 	eng := engine.New(zap.NewNop(), metrics, conf.Engine)
-	ctx, cancel := context.WithTimeout(context.Background(), 20*time.Second+time.Duration(nEntries*c.pause)*time.Millisecond)
+	ctx, cancel := context.WithTimeout(context.Background(), 20*time.Second+time.Duration(total*c.pause)*time.Millisecond)
 	runErr := eng.Run(ctx)
 	cancel()
 	eng.Wait()
